@@ -45,7 +45,7 @@ CHECKS = {
         note="One resource per class and two instances (conflicts depend only on key equality); hooks Engine::verif_enqueue_raw / verif_drain_reserve; raw rule ids are big-endian compact ids.",
         design="3 C03"),
     "C04": dict(
-        technique="TLC model checking of Graph.tla/MC_C04.tla (all ordered state pairs) + spec->impl replay of every pair into diff_state/apply_to_state",
+        technique="TLC model checking of Graph.tla/MC_C04.tla (all ordered state pairs) + spec->impl replay of every pair into diff_state/apply_to_state + ledger leg: TLC over Ledger.tla/MC_C04l.tla (one Engine over every script of <=3-4 tick/abort steps: patch-per-tick replay, commit chain, snapshot, jump_to_tick for every k, worldline slices) replayed into a real Engine under both schedulers x 1/4 workers",
         text="Every ordered pair (a,b) of reachable well-formed states of bounded graph universes is visited by TLC; the patch law "
              "ApplyOps(a, Diff(a,b)) in {b} u Err is an invariant of the model, and each pair is rebuilt in the real store where the real "
              "diff_state + WarpTickPatchV1::apply_to_state outcome must be exactly b (projection, per-store hash, state root, accumulator root) "
@@ -79,7 +79,7 @@ CHECKS = {
         note="Bounded scope (2-3 blobs, 1-2 coordinates, 3-5 calls exhaustive, 12 calls sampled; single-segment WALs with 1-3 submissions and 0-2 retained readings); content id modelled as identity; faults applied between calls. Finding F7 (MemoryTier::put_verified) fixed in fc16d86.",
         design="9.4 C20"),
     "C15": dict(
-        technique="TLC model checking of Strands.tla/MC_C15.tla (fork at every parent tick, every interleaving of parent and strand ticks over disjoint / read-overlapping / write-overlapping / obstructing footprints, both plural policies, a failure at every settlement step, sibling and chained strands with a support pin, re-settlement) + spec->impl replay of every behaviour into the real WorldlineRuntime / ProvenanceService / Engine",
+        technique="TLC model checking of Strands.tla/MC_C15.tla (fork at every parent tick, every interleaving of parent and strand ticks over disjoint / read-overlapping / write-overlapping / obstructing footprints, both plural policies, a failure at every settlement step, sibling and chained strands with a support pin, re-settlement) + spec->impl replay of every behaviour into the real WorldlineRuntime / ProvenanceService / Engine + braid-shell leg: TLC over BraidShells.tla/BraidLog.tla (retained shells, audit/replay, collapse under every policy/selection, braid event log lifecycle) replayed into the real settlement / braid-shell API and a real Braid",
         text="Strands.tla transcribes fork_strand, one super_tick head commit, pin_support, live_basis_report, plan_with_policy_internal (sticky blocking, clean-overlap revalidation, plural policy) and settle_with_policy_internal (checkpoint, one entry per decision, shell last, restore) over worldlines = slot->value map + entries carrying in/out slots, diff ops and the state after. TLC checks ForkIsExactPrefix, NoSharedHeads, lane isolation in both directions, PlanIsPure, SettleAllOrNothing, "
              "ImportedSlotsTakeStrandValues, ParentChangedSlotsNeverOverwritten, BlockingIsSticky and ParentStaysReplayable on every state and exports every complete behaviour with the predicted outcome of each call. The harness replays each one through fork_strand, ingest + super_tick with a table-driven rule declaring exactly the model footprint, pin_support and SettlementService::{compare, plan_with_policy, settle_with_policy}, and decides the property on the real outcome after every step "
              "(receipt = source entry, copied prefix entry by entry, fresh heads only, lane isolation, plan purity by fingerprints, exact restoration after a failure injected before every decision and at the shell step, no parent-written slot changed, imported slots = strand values, every lane replayable, each import compared with re-running its tick on the parent basis).",
@@ -92,13 +92,13 @@ CHECKS = {
         note="Physical leg models process kill (written = surviving); power loss only on the spec. Ledger versions captured between host calls. Findings F11 (lsn gap after an epoch without commit) and F12 (crash during tail-truncation rewrite) are listed in known_findings.json.",
         design="9.4 C10"),
     "C11": dict(
-        technique="TLC enumeration of MC_C11.tla over Wal.tla (one corruption edit of a committed log: region damage, truncation, delete/duplicate/swap/transplant of a record, delete/transplant of a transaction, second log with equal LSNs; as-built transcription of the recovery scan; Repaired variant as invariant) + spec->impl replay of every case on real segment bytes + trace validation (WalTraceC11.tla) of systematic mutation through recover_wal_segment_bytes, recover_filesystem_store, doctor_filesystem_store, validate_filesystem_manifest and enable_runtime_wal",
+        technique="TLC enumeration of MC_C11.tla over Wal.tla (one corruption edit of a committed log: region damage, truncation, delete/duplicate/swap/transplant of a record, delete/transplant of a transaction, second log with equal LSNs; as-built transcription of the recovery scan; Repaired variant as invariant) + spec->impl replay of every case on real segment bytes + trace validation (WalTraceC11.tla) of systematic mutation through recover_wal_segment_bytes, recover_filesystem_store, doctor_filesystem_store, validate_filesystem_manifest and enable_runtime_wal + segmented leg: TLC over WalSeg.tla/MC_C11s.tla (segment files, manifest, epoch ledger; one edit per case; writer lifecycle machine) replayed on store-level and host-level rotated logs",
         text="Every model edit is exported with the class (err / prefix / nonprefix) the transcribed recovery predicts and applied to the real bytes of logs written by a real host (log B = same calls, other payloads, equal LSNs); prediction vs real class is reported as drift (zero on the tree). Independently every record- and transaction-level edit of a generated submit/stage/tick log, bit flips and zeroed ranges (every bit and aligned 8-byte range of a <=4 kB log in thorough), truncations, ledger and manifest edits run through all entry points; recovered histories are compared as identity+content digests "
              "and the trace spec requires every successful result to be a prefix of the committed history.",
         note="Abstract hashes in the model; the Repaired model anchors the chain at genesis. Finding F13 (chain digests never compared, commit markers not de-duplicated: 20 edit x entry-point keys) is listed in known_findings.json.",
         design="9.4 C11"),
     "C05": dict(
-        technique="TLC model checking of Provenance.tla/MC_C05.tla (chain mode: every interleaving of two-head appends on two worldlines and a fork; tamper mode: every (position, field, variant) alteration, swap/duplicate/truncate/drop/transplant and tampered checkpoint with the predicted re-verification outcome) + spec->impl replay of every tamper case on entries appended by the real runtime, through append validation, replay_worldline_state_at, PlaybackCursor::seek_to, checkpoint insert/restore, validate_btr and import_suffix + trace validation of appended entries (ProvenanceTrace.tla)",
+        technique="TLC model checking of Provenance.tla/MC_C05.tla (chain mode: every interleaving of two-head appends on two worldlines and a fork; tamper mode: every (position, field, variant) alteration, swap/duplicate/truncate/drop/transplant and tampered checkpoint with the predicted re-verification outcome) + spec->impl replay of every tamper case on entries appended by the real runtime, through append validation, replay_worldline_state_at, PlaybackCursor::seek_to, checkpoint insert/restore, validate_btr and import_suffix + trace validation of appended entries (ProvenanceTrace.tla) + transport leg: TLC over SuffixTransport.tla/MC_C05s.tla (importer basis states x export ranges x ~600 tampers of bundle/shell/refs/entries/BTR/request) replayed through the real export_suffix / import_suffix / append / replay / validate_btr",
         text="The model gives every entry the fields of ProvenanceEntry/HashTriplet/patch header/receipt with hashes as injective constructors and transcribes validate_shared_entry/validate_local_commit_entry, the replay checks, checkpoint validation and fork. Chain mode proves, over every interleaving of coordinator appends of two heads on two worldlines and a fork, append-only and gap-free histories, parents = previous tip, commit id = H(parents, root, patch digest, policy), that every prefix re-verifies and the hash relation equal inputs <=> equal commit id. "
              "Tamper mode enumerates every (position, field, variant) of a catalogue covering every entry field (including field+digests recomputed consistently), swap, duplication, truncation, cross-worldline transplant and tampered checkpoints; it predicts err | same | diff. Each case is applied to real entries (all fields are pub) produced by the real runtime; the property is decided on the REAL outcome through every entry point - typed error or exactly the original graph, roots, tick history, receipts and last materialization - and again on random multi-head "
              "multi-worldline histories at every position; BTR records and suffix bundles get their own field-by-field alterations. Every entry the runtime appended is validated by a trace spec reusing the spec's AppendEntry/Fork.",
@@ -119,7 +119,7 @@ CHECKS = {
         note="Bounded model (1 base worldline + 1 fork child, history <= 2). Traces are seeded samples (quick ~3.4k reads, thorough ~31k reads). Only receipt_correlation_full_scan_count is masked in fingerprints. Recorded outputs are imported because engine rules do not emit. Finding F6 (optic provenance ref commit not checked) fixed in d7948ba.",
         design="9.4 C16"),
     "C17": dict(
-        technique="TLC model checking of ExtAction.tla/MC_C17.tla (lifecycle x durable log x crash/fault points, 14 invariants) + spec->impl replay of every bounded behaviour into the real ExternalActionCoordinatorV1 over a fault-injecting WalStorePort + model-derived root-digest relation + trace validation (ExtActionTrace.tla) of seeded random runs",
+        technique="TLC model checking of ExtAction.tla/MC_C17.tla (lifecycle x durable log x crash/fault points, 14 invariants) + spec->impl replay of every bounded behaviour into the real ExternalActionCoordinatorV1 over a fault-injecting WalStorePort + model-derived root-digest relation + trace validation (ExtActionTrace.tla) of seeded random runs + size-boundary leg: the same behaviours replayed with the model budget Bound read as the protocol ceiling (1 MiB results)",
         text="ExtAction.tla models per request id the posture none/requested/claimed/settled, the durable log of frames and commit markers with an unsynced tail, the volatile coordinator (index, incremental root, WAL continuation, ready flag) and Record/Claim/Settle/Retry/Observe with every rejection reason of external_action.rs, each durable step as Call; AppendFrame; FlushCommit; Return with a store fault before/after effect at every append/flush, a crash at every frame, and Recover. TLC checks lifecycle-prefix, one-grant, exact-attempt/bounds, durable-before-return, "
              "RecoveredIndex=LiveIndex, RecoveredRoot=IncrementalRoot, retry-from-retained and no-step-repeated on every state, and exports every behaviour of the bounded models; the harness replays each into the real coordinator over the real InMemoryWalStore behind a WalStorePort that fails or unwinds at the named store call, and after EVERY step decides the property on the real outcome (recovered coordinator == live coordinator incl. root_digest, <=1 distinct claim grant, settlement lawful against the durable claim, returned grant's commit flushed, "
              "retry == retained settlement with no store call, commits == lifecycle stages) and compares class/postures/grants/tail with the model. Root digests are abstract in the model and decided as equal index content <=> equal real digest over all behaviours. Long random interleavings over 12 request ids are covered by trace validation.",
@@ -133,7 +133,7 @@ CHECKS = {
         note="Bounded generator (<=6 heads, <=3 passes, one special per behaviour); a head commit is abstracted to a function of the admitted set and intent behaviour class (bound by C01); enforcement compiled in; hooks verif_set_global_tick / verif_set_frontier_tick / verif_set_inbox_policy and Engine::verif_fingerprint; mask = scheduler_faults, faulted_heads, runtime_fault, next_scheduler_fault_generation, runnable (re-derived and cross-checked), receipt_correlation_full_scan_count.",
         design="9.4 C09"),
     "C08": dict(
-        technique="TLC model checking of Runtime.tla/MC_C08.tla (all interleavings of ingest/submit/ticketed staging/SetPolicy/SuperTick, unbounded retries, state invariants + transition laws) + spec->impl replay of every transition of the state graph + model-derived metamorphic relation over all permutations and retry multiplicities + identity-law grid + restart scenarios",
+        technique="TLC model checking of Runtime.tla/MC_C08.tla (all interleavings of ingest/submit/ticketed staging/SetPolicy/SuperTick, unbounded retries, state invariants + transition laws) + spec->impl replay of every transition of the state graph + model-derived metamorphic relation over all permutations and retry multiplicities + identity-law grid + restart scenarios + legacy-inbox leg: TLC over Inbox.tla/MC_C08l.tla (graph-backed inbox: all arrival permutations x retries x transaction placements) replayed into a real Engine under both schedulers",
         text="TLC explores all interleavings of ingress calls (default/named/exact/missing routes, 2 kinds, one intent citing a causal parent, any number of retries), inbox policy changes (AcceptAll, KindFilter with eviction, Budget 0..2) and scheduler passes, and proves at-most-once per head, pending/committed disjointness, retry idempotence, the disposition law, id-ordered budgeted admission and that nothing admitted is lost. Every transition of the explored graph is replayed from a witness path into the real WorldlineRuntime (ingest, submit_intent, "
              "ticketed staging, super_tick): dispositions, pending/committed membership, StepRecord counts, admitted sets and correlations must match, a Duplicate/refused call must leave the full fingerprint unchanged, and the admitted batch must be the real-id-ordered prefix. All permutations (exhaustive <=6 intents, sampled for 8) x retry multiplicities between two passes must give bit-identical committed ticks; ingress ids over a grid must be equal exactly when (kind, bytes, causal-parent set) is equal; a restart must not re-commit.",
         note="Bounded universe (<=4 intents, 2..3 heads, <=2..3 passes, <=1 policy change); real BLAKE3 id order supplied by the harness per salt; restart = restore_witnessed_submission_persistence + restore_causal_runtime_history (WAL bytes are C10); finding F10 (restart re-commit on the raw ingest path) is listed in known_findings.json.",
